@@ -29,7 +29,11 @@ def classify(kf, rec):
             return re.sub(r"^[>\s\-*+]*(\d+[.)])?\s*", "", l)
         if len(a) != len(b):
             return any(body(l).startswith("...") for l in a)
-        return all(x == y or body(x).startswith("...") for x, y in zip(a, b))
+        lead = [body(l).startswith("...") for l in a]
+
+        def near(i):
+            return lead[i] or (i + 1 < len(a) and lead[i + 1]) or (i > 0 and lead[i - 1])
+        return all(x == y or near(i) for i, (x, y) in enumerate(zip(a, b)))
     if cl == "ellipsis-inside-template-tag":
         t = c.get("text") or c.get("doc") or ""
         return bool(re.search(r"\{%[^%]*\.\.\.[^%]*%\}|\{\{[^}]*\.\.\.[^}]*\}\}|\{#[^#]*\.\.\.[^#]*#\}|<!--(?:(?!-->).)*\.\.\.(?:(?!-->).)*-->", t, flags=re.S))
